@@ -166,7 +166,8 @@ class C12(object):
                     "eager_sleep": rnd.random() < 0.35}
         d = {"entry": "labelimage-history", "nfr": nfr, "ns": ns, "nf": nf, "wseed": rnd.getrandbits(48),
              "threshold": rnd.choice([0.0, 5.0, 100.0, -5000.0]), "omega0": rnd.choice([0.0, -10.0, 90.5]), "ostep": ostep,
-             "write2d": rnd.random() < 0.4, "cfg": cfg, "reuse_buffer": rnd.random() < 0.3}
+             "write2d": rnd.random() < 0.4, "cfg": cfg, "reuse_buffer": rnd.random() < 0.3,
+             "own_labels": rnd.choice([0, 0, 0, 1, 2, 3])}
         if not big and not wide and rnd.random() < 0.2:
             # a second labelimage (another threshold / detector, as the threaded peaksearcher runs them) whose GIL-free
             # kernel calls overlap in time with those of the first
@@ -246,6 +247,30 @@ class C12(object):
                     continue
                 rows.append([float(x) for x in line.split()])
             viol = self.compare(rows, ref, ncomp, vol, omegas, M)
+        if viol is None and desc.get("own_labels") and M[0].any():
+            # the caller brings its own label image for a frame (specks wiped, so the label numbers have gaps): every label that is
+            # present gets its pixels and its summed intensity
+            bl_, nb_ = scipy.ndimage.label(M[0], np.ones((3, 3)))
+            bl_ = (bl_ * desc["own_labels"] - (desc["own_labels"] - 1) * (bl_ > 0)).astype(np.int32)    # 1, 1+k, 1+2k, ...
+            try:
+                with contextlib.redirect_stdout(io.StringIO()):
+                    lab_o = self.li.labelimage((ns, nf), fileout=io.StringIO(), sptfile=io.StringIO())
+                    lab_o.measurepeaks(vol[0], float(omegas[0]), blim=bl_)
+                res_o = np.zeros((0, 1)) if lab_o.res is None else np.asarray(lab_o.res)
+                for L_ in np.unique(bl_[bl_ > 0]):
+                    npx_ = int((bl_ == L_).sum())
+                    si_ = float(np.nan_to_num(vol[0])[bl_ == L_].astype(np.float64).sum())
+                    if L_ - 1 >= len(res_o) or int(res_o[L_ - 1][real_c.s_1]) != npx_ or \
+                            abs(float(res_o[L_ - 1][real_c.s_I]) - si_) > 1e-6 * max(1.0, abs(si_)):
+                        viol = {"class": "property-differs", "key": "labelimage:own-labels:property-differs",
+                                "detail": "measurepeaks(blim=caller's label image with labels %s): label %d has %d pixels, the results table "
+                                          "holds %s rows and %s pixels for it" % (np.unique(bl_[bl_ > 0])[:6].tolist(), int(L_), npx_, len(res_o),
+                                                                                   res_o[L_ - 1][real_c.s_1] if L_ - 1 < len(res_o) else "no row")}
+                        break
+            except Exception as e:
+                if runner.is_harness_exception(e):
+                    raise
+                viol = {"class": "raises", "key": "labelimage:own-labels:raises", "detail": "measurepeaks(blim=...) raised %s: %s" % (type(e).__name__, e)}
         nconc = 0
         if viol is None and desc.get("concurrent"):
             viol, nconc = self.exec_concurrent(desc, ctx, callsA)
